@@ -26,7 +26,7 @@ struct HookEv {
 	SutAction action;                   // what the simulator answered (A_NONE = return)
 };
 
-struct LogEv { uint8_t kind, origin, arg; uint8_t ctx_ok; uint32_t pos; };   // pos = number of hook events before it
+struct LogEv { uint8_t kind, origin, arg; uint8_t ctx_ok; uint32_t pos; uint16_t grp = 0; };   // pos = number of hook events before it
 
 struct Obs {
 	bool valid = false;
